@@ -165,9 +165,9 @@ Lemma lex_from_spec :
   (forall f r p st n, String.length r < f -> lex_all f (mklex r p st n) = lex_from r p n).
 Proof. split; [exact lex_string_from|exact lex_all_from]. Qed.
 
-Lemma text_items_ok s : valid_utf8 s = true -> plain_text s = true ->
-  forallb sitem_ok (text_items s) = true /\ sitems_text (text_items s) = s /\ sitems_value (text_items s) = s.
-Proof. intros Hv Hp. exact (text_items_spec (String.length s) s 0 (le_n _) Hv Hp). Qed.
+Lemma text_items_ok curly s : valid_utf8 s = true -> plain_text curly s = true ->
+  forallb (sitem_ok curly) (text_items s) = true /\ sitems_text (text_items s) = s /\ sitems_value (text_items s) = s.
+Proof. intros Hv Hp. exact (text_items_spec curly (String.length s) s 0 (le_n _) Hv Hp). Qed.
 
 Lemma rmark_spec :
   rmark_text RHex = "x" /\ rmark_radix RHex = 16%N /\
